@@ -6,6 +6,7 @@ import (
 	"bytes"
 	"encoding/json"
 	"fmt"
+	"regexp"
 	"sort"
 	"strconv"
 	"strings"
@@ -56,6 +57,8 @@ func c12Gen(g *Gen) {
 // ---------------------------------------------------------------------------
 // runner + oracle
 // ---------------------------------------------------------------------------
+
+var c12BigLit = regexp.MustCompile(`[:\[,][ \t\r\n]*-?[0-9]{16,}`)
 
 type c12Runner struct{}
 
@@ -197,6 +200,9 @@ func (c12Runner) Step(t []string, o *Oracle) string {
 		line, f := c12Show(tx)
 		if f == nil {
 			return line
+		}
+		if c12BigLit.Match(js) {
+			o.Count("tx-with-big-bare-literal")
 		}
 		if strings.Contains(line, " raw=1 ") {
 			o.Count("tx-raw-fallback")
